@@ -27,3 +27,5 @@ def run_deductive(rep):
     except ImportError:
         pass
     verify.verify_many(rep, items)
+    from ..static import provenance
+    provenance.report(rep, only=("reductions/", "utils/"))
